@@ -2,7 +2,7 @@
    Pinned statements only.  A byte string is a [list N] with every element < 256 ([is_bytes]).
    The decoders are total Gallina functions (structural recursion on the buffer / on fuel equal
    to the buffer length), so "never loops" is part of their definition. *)
-From CFDP Require Import Base.Prelude Model.PduUser Model.CodecBase Model.Codec Model.CodecUser
+From CFDP Require Import Base.Prelude Model.PduUser Model.CodecBase Model.Codec Model.CodecUser Model.Crc
   Proofs.CodecBaseP Proofs.CodecP Proofs.CodecUserP.
 
 (* no input makes PDU::decode hit an overflow check, an index check or an unwrap *)
@@ -25,6 +25,26 @@ Theorem decode_canonical : forall b p,
   is_bytes b -> pdu_decode b = Ok p ->
   wf_pdu (fix_len p) /\ pdu_decode (pdu_encode (fix_len p)) = Ok (fix_len p).
 Proof. exact decode_canonical_holds. Qed.
+
+(* "never loops": the three `while !remaining.is_empty()` loops (metadata options, NAK segment
+   requests, Finished TLVs) are modelled with fuel = buffer length; any larger fuel gives the
+   same result, i.e. running out of fuel is unreachable: every iteration consumes >= 1 byte *)
+Theorem loops_fuel_independent :
+  (forall fuel b, is_bytes b -> (length b <= fuel)%nat ->
+     repeat_dec fuel tlv_decode b = repeat_until_empty tlv_decode b) /\
+  (forall f fuel b, is_bytes b -> (length b <= fuel)%nat ->
+     repeat_dec fuel (segment_decode f) b = repeat_until_empty (segment_decode f) b) /\
+  (forall c fuel b, is_bytes b -> (length b <= fuel)%nat ->
+     finished_loop fuel c b = finished_loop (length b) c b).
+Proof. exact loops_fuel_independent_holds. Qed.
+
+(* a PDU accepted with the CRC flag set: the consumed octets end in the CRC-16 of what precedes
+   them (Model/Crc.v crc_frame_ok); this is the hypothesis the CRC theorems of C15 need *)
+Theorem accepted_crc_frame : forall b p,
+  is_bytes b -> pdu_decode b = Ok p -> h_crc (pdu_hdr p) = CRCFlag_Present ->
+  exists frame rest, b = frame ++ rest /\ Crc.crc_frame_ok frame = true /\
+    blen frame = header_encoded_len (pdu_hdr p) + h_len (pdu_hdr p) + 2.
+Proof. exact pdu_decode_crc_frame. Qed.
 
 (* the public per-type decoders *)
 Theorem per_type_decode_total : forall b, is_bytes b ->
@@ -77,6 +97,8 @@ Check report_decode_total : forall b, is_bytes b -> report_decode b <> Panic.
 Print Assumptions decode_total.
 Print Assumptions decode_reads_bounded.
 Print Assumptions decode_canonical.
+Print Assumptions loops_fuel_independent.
+Print Assumptions accepted_crc_frame.
 Print Assumptions per_type_decode_total.
 Print Assumptions uo_decode_total.
 Print Assumptions uo_decode_canonical.
